@@ -1240,7 +1240,7 @@ func TestC09(t *testing.T) {
 		// (a reconfiguration case is a sequence on its own registry, not a stored state: it is not re-run here)
 		for rep := 0; rep < 2 && stable && !strings.HasPrefix(cd.Case.Family, "reconfigure:"); rep++ {
 			stable = false
-			for _, f := range replayOne(world(0), cd.Case) {
+			for _, f := range replayOne(world(axFreshIndex()), cd.Case) { // fresh world per confirmation
 				stable = stable || f.Sig == cd.F.Sig
 			}
 		}
